@@ -29,6 +29,7 @@ V __CPROVER_uninterpreted_sqrt(V);
 V __CPROVER_uninterpreted_abs(V);
 _Bool __CPROVER_uninterpreted_is_zero(V);
 _Bool __CPROVER_uninterpreted_less(V, V);
+_Bool __CPROVER_uninterpreted_le(V, V);
 #define UF_ADD(a, b) __CPROVER_uninterpreted_add((V)(a), (V)(b))
 #define UF_SUB(a, b) __CPROVER_uninterpreted_sub((V)(a), (V)(b))
 #define UF_MUL(a, b) __CPROVER_uninterpreted_mul((V)(a), (V)(b))
@@ -36,6 +37,7 @@ _Bool __CPROVER_uninterpreted_less(V, V);
 #define UF_NEG(a) __CPROVER_uninterpreted_neg((V)(a))
 #define UF_CONST(c) __CPROVER_uninterpreted_lit((double)(c))
 #define UF_LESS(a, b) __CPROVER_uninterpreted_less((V)(a), (V)(b))
+#define UF_LE(a, b) __CPROVER_uninterpreted_le((V)(a), (V)(b))
 #define MATH_zero(T) __CPROVER_uninterpreted_zero(0)
 #define MATH_identity(T) __CPROVER_uninterpreted_identity(0)
 #define math_is_zero(a) __CPROVER_uninterpreted_is_zero((V)(a))
@@ -55,6 +57,7 @@ typedef int V;
 #define UF_NEG(a) (-(a))
 #define UF_CONST(c) (c)
 #define UF_LESS(a, b) ((a) < (b))
+#define UF_LE(a, b) ((a) <= (b))
 #define MATH_zero(T) 0
 #define MATH_identity(T) 1
 #define math_is_zero(a) ((a) == 0)
